@@ -416,6 +416,20 @@ func graphNodes(g *resolve.Graph) []GNode {
 	return out
 }
 
+// declaredTwice: the npm manifest requires the package more than once (plainly and / or through aliases).
+func (s *Scenario) declaredTwice(name string) bool {
+	if s.Eco != "npm" {
+		return false
+	}
+	n := 0
+	for _, r := range s.Manifest {
+		if (r.Name == name && !strings.HasPrefix(r.Req, "npm:")) || strings.HasPrefix(r.Req, "npm:"+name+"@") {
+			n++
+		}
+	}
+	return n >= 2
+}
+
 // resolvedVersion: the version `name` resolves to in g: the node a root edge for that name points to,
 // else the unique node of that name. ok=false if absent, ambiguous=true if several versions and no root edge.
 func resolvedVersion(g *resolve.Graph, name string, alias string) (ver string, ok bool, ambiguous bool) {
